@@ -18,7 +18,7 @@ CLAIMS = {
          "mutually inverse (exhaustive); var/level unit discipline of the exporter/importer; no edge leaked on importer error "
          "paths; MIR taint analysis of the importer: no number decoded from the file reaches an index, subtraction or allocation size "
          "without a dominating range check or checked/clamping operation; id-list sortedness checks are strict; no overflow check relies "
-         "on checked_shl; prefix tests have the file buffer as receiver. Tables addressed by manager levels are sized by the manager, not by the file (E-UNITS.sized). The exporter prints variable numbers under .ids and level numbers under .permids (E-DDDMP.fields), numbers levels bottom-up with node ids from 1 and support-variable indices pre-decremented (E-DDDMP.numbering). The reader inverts the writer's binary id / variable codes over a small exhaustive domain, payload numbers are written exactly for AbsoluteID / RelativeID, mode selection and the complement flag have the documented form (E-DDDMP.bincodes); variable loops start at 0, terminal lines end in ` 0 0` (E-DDDMP.ascii); the importer rejects level >= child level (E-DDDMP.order). The header validation of DumpHeader::load is interpreted on 12 well-formed and 22 malformed model headers (accepted with the right variable order and names / rejected with Err, never a panic; E-DDDMP.header); per-node arity, terminal and child-id checks of both node readers (E-DDDMP.noderec); sanitising errors only under `strict` (E-DDDMP.strictmode). Round-trip equality and totality beyond these sinks are not decided.",
+         "on checked_shl; prefix tests have the file buffer as receiver. Tables addressed by manager levels are sized by the manager, not by the file (E-UNITS.sized). The exporter prints variable numbers under .ids and level numbers under .permids (E-DDDMP.fields), numbers levels bottom-up with node ids from 1 and support-variable indices pre-decremented (E-DDDMP.numbering). The reader inverts the writer's binary id / variable codes over a small exhaustive domain, payload numbers are written exactly for AbsoluteID / RelativeID, mode selection and the complement flag have the documented form (E-DDDMP.bincodes); variable loops start at 0, terminal lines end in ` 0 0` (E-DDDMP.ascii); the importer rejects level >= child level (E-DDDMP.order). The header validation of DumpHeader::load is interpreted on 12 well-formed and 22 malformed model headers (accepted with the right variable order and names / rejected with Err, never a panic; E-DDDMP.header); per-node arity, terminal and child-id checks of both node readers (E-DDDMP.noderec); sanitising errors only under `strict` (E-DDDMP.strictmode); invented names cannot collide with real ones (E-DDDMP.placeholder); write_replacing_control's flag (E-DDDMP.ctrlflag); all callers of import map variables by support_var_order() (E-DDDMP.callers). Round-trip equality and totality beyond these sinks are not decided.",
          "constant-table extraction from HIR + exhaustive evaluation; unit analysis", "3.9, 4 C15"),
  "C19": ("E-FFI + E-LIN + E-UNITS on oxidd-ffi-c: C symbol <-> Rust operation wiring and operand order, equal export sets of the "
          "three files, from_raw only under ManuallyDrop::new (borrow) or drop (unref), no entry point but the documented one "
@@ -37,7 +37,7 @@ CLAIMS = {
          "thorough: all 8) and E-LIN/E-WRAP (+E-CACHE/E-EVENT where a cache exists) are re-run on each; sibling agreement of the two "
          "node types (ARITY constant, method bodies) and NoApplyCache = constant miss. The worker-count dependent reordering path: E-PERM (+ .blocked, .acquire, .relabel); the two managers' VarLevelMap copies are the same program (E-VLM); MT function types forward to the sequential ones (E-WRAP.delegate). The pointer-based manager (never built by the default test suite): E-PTR.tagbits, E-CANON.ptrsplit, E-LIN.rcguard / .rcconst / .mint. Observational equivalence of results is not "
          "decided.", "type-checking the feature matrix + sibling comparison of HIR", "3.9, 4 C20"),
- "C17": ("E-RAW on linear_hashtbl::raw: inventory of writers of the free-slot counter, +1/-1 pairing with status stores, "
+ "C17": ("E-RAW.model: find / find_or_find_insert_slot / insert_in_slot_unchecked / remove_at_slot_unchecked / retain / is_hash interpreted from all 125 well-formed 4-slot tables for both status encodings (results, exact len / free, every resulting table well-formed again). E-RAW on linear_hashtbl::raw: inventory of writers of the free-slot counter, +1/-1 pairing with status stores, "
          "provenance of retain's successor-is-free flag, Drain's full sweep, counter assignment when the slot array is replaced, "
          "probe-loop guards, Slot::clone keeps the status word, remove frees a slot only next to a FREE successor, lookups "
          "answer absent only on a FREE slot. The successor tested by remove is the cyclic one; reserve_rehash rebuilds the array on every path, assigns free = new_cap - len and all probes advance by one slot modulo the size (E-RAW.rehash); the element counts move in the reviewed direction in each of their 13 writers (E-RAW.len). Emptiness shortcuts compare with 0 and leave without visiting slots (E-RAW.lenzero). Necessary conditions of `free <= #FREE slots` (termination of lookups, intact probe chains); set "
